@@ -1,2 +1,3 @@
 import TT.Props.C20
 import TT.Props.C19
+import TT.Props.C04
